@@ -15,15 +15,31 @@ for l in open(patch, errors='replace'):
         recv = (m.group(2) or '').split()
         t = recv[-1].lstrip('*') if recv else ''
         touched.add((t, m.group(3)))
-props = {own}
+# per touched function, the properties whose check examines it
+cover = {}
 for f in sorted(glob.glob('/var/tmp/propfuncs/C*.txt')):
     p = os.path.basename(f)[:-4]
     for e in open(f).read().split('\n'):
         base = e.split('$')[0]
         for t, n in touched:
+            hit = False
             if t:
-                if re.search(r'[(.*]' + re.escape(t) + r'\)\.' + re.escape(n) + r'$', base):
-                    props.add(p)
-            elif base == n or (base.endswith('.' + n) and '(' not in base):
-                props.add(p)
+                hit = bool(re.search(r'[(.*]' + re.escape(t) + r'\)\.' + re.escape(n) + r'$', base))
+            else:
+                hit = base == n or (base.endswith('.' + n) and '(' not in base)
+            if hit:
+                cover.setdefault((t, n), set()).add(p)
+if os.environ.get('RELEVANT') == 'all':
+    props = {own}
+    for ps in cover.values():
+        props |= ps
+else:
+    # every obligation of an examined function is discharged whatever the property, so one check
+    # per touched function suffices: greedy cover, the patch's own property first
+    props = {own}
+    todo = {k for k, ps in cover.items() if own not in ps}
+    while todo:
+        best = max(sorted({p for k in todo for p in cover[k]}), key=lambda p: sum(1 for k in todo if p in cover[k]))
+        props.add(best)
+        todo = {k for k in todo if best not in cover[k]}
 print(' '.join(sorted(props)))
